@@ -250,11 +250,9 @@ impl Explorer {
     }
 }
 
-impl Drop for Explorer {
-    fn drop(&mut self) {
-        set_hook(None);
-    }
-}
+// note: the hook is deliberately not cleared when an Explorer is dropped: a replacement explorer (after a
+// deadlock) installs its own hook before the old one goes away, and threads that are not tasks pass
+// straight through a hook anyway.
 
 #[derive(Default, Clone, Debug)]
 pub struct ExploreStats {
